@@ -133,6 +133,33 @@ def run(ck: Check):
         if not torch.equal(yt, ye):
             ck.disagree("saturated soft output on Boolean inputs differs from the eval output", {"param": par},
                         observed=float((yt - ye).abs().max()), signature={"layer": "dense", "param": par, "what": "saturated"})
+    # ---------------- saturated by the TEMPERATURE: ordinary random logits, a temperature near the smallest float (and below it).
+    # softmax(logits / tau) is then the one-hot of the largest logit (logistic(form / tau) the sign of the form): finite, inside [0,1]
+    # and equal to eval on Boolean inputs - logits / tau must not overflow into NaN on the way (F63, F65)
+    from torchlogix.layers import LogicConv2d as _C2s
+    for tau in (1e-38, 3e-39, 1e-46):
+        for par in ("raw", "walsh"):
+            for kind in ("dense", "conv"):
+                torch.manual_seed(ck.seed + 31)
+                if kind == "dense":
+                    l = LogicDense(4, 24, device="cpu", parametrization=par, weight_init="random", forward_sampling="soft", temperature=tau)
+                    xb = torch.tensor(nets.all_rows(4), dtype=torch.float32)
+                else:
+                    l = _C2s(in_dim=(3, 3), device="cpu", channels=1, num_kernels=6, tree_depth=2, receptive_field_size=2, parametrization=par,
+                             weight_init="random", forward_sampling="soft", temperature=tau)
+                    xb = torch.tensor(nets.all_rows(9)[::7], dtype=torch.float32).reshape(-1, 1, 3, 3)
+                case = {"layer": kind, "param": par, "tau": tau, "saturated_by": "temperature"}
+                ck.case(case, nontrivial=True, kind="saturated")
+                with torch.no_grad():
+                    yt = l.train()(xb)
+                    ye = l.eval()(xb)
+                nan = int(torch.isnan(yt).sum())
+                if nan or not bool(((yt >= 0) & (yt <= 1)).all()):
+                    ck.disagree("soft training output is not a finite value in [0,1] at a tiny positive temperature", dict(case, nan_values=nan, values=int(yt.numel())),
+                                signature={"layer": kind, "param": par, "what": "tiny-temperature-range"})
+                elif not torch.equal(yt, ye):
+                    ck.disagree("soft output saturated by a tiny temperature differs from the eval output on Boolean inputs", dict(case, differing=int((yt != ye).sum())),
+                                observed=float((yt - ye).abs().max()), signature={"layer": kind, "param": par, "what": "saturated"})
     # ---------------- conv layers: per-window soft tree
     from harness.c12 import make_layer, per_window
     for rep in range(reps * 4):
